@@ -724,13 +724,28 @@ func c16Corpus(c *Ctx) {
 	}
 	c.Extra["corpus_cases"] = len(all)
 	c.Cases("corpus", len(all), func(r *Rng, i int) { c16Execute(c, all[i], "corpus") })
+	// a Listener closed while it has no socket (the state Replace leaves between dropping the old socket
+	// and binding the new one, in which Replace itself calls Close when binding fails): 1..4 callers
+	c.Cases("nosocket", 4, func(r *Rng, i int) {
+		p, ret, closed := c2.VerifC16CloseWithoutSocket(1 + i)
+		in := map[string]interface{}{"callers": 1 + i, "state": "stateReplacing set, listener == nil, listen() running"}
+		switch {
+		case p != "":
+			c.Fail("panic", "panic:Listener.Close:no-socket", "Listener.Close() panicked on a Listener without a socket: "+p, in)
+		case !ret:
+			c.Fail("hang", "hang:call:Listener.Close:no-socket", "Listener.Close() did not return on a Listener without a socket", in)
+		case !closed:
+			c.Fail("waiter", "waiter:Listener.Done:no-socket", "Listener.Close() returned but Done() is not closed", in)
+		}
+		c.Eval(true, fmt.Sprint("nosocket", i))
+	})
 }
 
 // ---- end-to-end parent ---------------------------------------------------------------------------------
 
 func c16Scenarios(c *Ctx) []c16Scen {
 	moments := []string{"idle", "exchange", "gate", "channel", "queued", "reassembly"}
-	sides := []string{"client", "server", "remove", "both-cs", "both-sc", "ctx-client", "listener", "srvclose", "ctx-server"}
+	sides := []string{"client", "server", "remove", "both-cs", "both-sc", "ctx-client", "listener", "srvclose", "ctx-server", "fleet"}
 	var res []c16Scen
 	i := 0
 	for _, m := range moments {
@@ -738,6 +753,15 @@ func c16Scenarios(c *Ctx) []c16Scen {
 			callers := []int{1, 2, 3, 4}[(i+int(c.Seed))%4]
 			repeat := []int{0, 1, 2}[(i/2+int(c.Seed))%3]
 			clients := 1 + (i+int(c.Seed)/2)%2
+			if s == "fleet" {
+				if m != "idle" {
+					continue
+				}
+				// more than 32 sessions (two removal requests each, queue of 64)
+				res = append(res, c16Scen{m, s, 1, 0, 40 + int(c.Seed)%8})
+				i++
+				continue
+			}
 			res = append(res, c16Scen{m, s, callers, repeat, clients})
 			if c.Thorough() {
 				for k := 1; k <= 4; k++ {
